@@ -203,6 +203,7 @@ func asExprStmt(n ast.Node) ast.Expr {
 }
 
 func rulesC12(c *Ctx) {
+	c.Import("R-C12-12", "the loopback-Host precondition rests on util.IsLoopback meaning exactly localhost or a loopback address", "C15", "R-C15-7", nil)
 	c.Rule("R-C12-1", "every documented HTTP precondition gate lies on all paths to the hand-off: with the violating condition true, no path reaches the transport/session and the mandated status is written", func() {
 		// --- StreamableHTTPHandler.ServeHTTP
 		sh := c.Fn(pM, "StreamableHTTPHandler", "ServeHTTP")
